@@ -135,8 +135,8 @@ MC_HARNESS(idle_submit) {
 //   op: d = destroy, r<m> = resize(m), w0 / w1 = setSignalingWake(false, 200us) / setSignalingWake(true).
 // In wake mode timed futex waits never expire once the call under test begins (the harness switches
 // MC_OPT_TIMEOUTS off right before it), so a worker that misses
-// stop()+wakeAll() leaves T0 blocked in join => deadlock verdict. In poll mode the 200us poll period is the
-// mechanism, timeouts stay on and the oracle is termination. After the call: live modelled threads == 1 + new size.
+// stop()+wakeAll() leaves T0 blocked in join => deadlock verdict. The same holds in poll mode (the poll period is
+// for finding work, not for shutting down), except while an unstarted task (task=1) still needs a poll. After the call: live modelled threads == 1 + new size.
 MC_HARNESS(lifecycle) {
   int n = (int)P("n", 1), task = (int)P("task", 0), when = (int)P("when", 0);
   bool poll = P("poll", 0) != 0;
@@ -177,7 +177,12 @@ MC_HARNESS(lifecycle) {
       mc::cover("at_enter_sleep");
     }
     int size_now = n;
-    mc::opt(MC_OPT_TIMEOUTS, wake_mode ? 0 : 1); // from here on a wake-mode worker is only ever woken by wakeAll()
+    // From here on a parked worker is only ever woken by wakeAll(): timed waits may not expire. That holds in poll
+    // mode too - the poll period is how a polling worker finds *work*, but stop()+wakeAll() must end its sleep at
+    // once whatever the period (setSignalingWake(false, 3s) is legal) - except while a task that nobody has started
+    // yet (task=1) still needs a poll to be picked up.
+    const bool no_timeouts = wake_mode || task != 1;
+    mc::opt(MC_OPT_TIMEOUTS, no_timeouts ? 0 : 1);
     if (op == "d") {
       pool.reset();
       expect_live(0, "~ThreadPool");
@@ -200,7 +205,7 @@ MC_HARNESS(lifecycle) {
       MC_CHECK(false, "harness: unknown op %s", op.c_str());
     }
     // teardown doubles as a second shutdown test: workers that were only just created, in the final mode
-    mc::opt(MC_OPT_TIMEOUTS, wake_mode ? 0 : 1);
+    mc::opt(MC_OPT_TIMEOUTS, (wake_mode || task != 1) ? 0 : 1);
     (void)size_now;
     pool.reset();
     expect_live(0, "final ~ThreadPool");
